@@ -297,7 +297,44 @@ def contract_function(module, name, condition, snapshots=()):
 # ------------------------------------------------------------------------------------------
 # the same calls from several threads at once
 # ------------------------------------------------------------------------------------------
-def concurrent_vs_alone(groups, switch_interval=1e-5, timeout=180):
+class _YieldInjector:
+    """sys.monitoring LINE events on every statement of the library under test (files under
+    .../bluebonnet/): the callback gives the interpreter lock away, so that the other threads run
+    between ANY two statements of library code - interleavings at statement boundaries are explored
+    densely instead of every few microseconds by chance. Everything else is switched off per location."""
+
+    TOOL = sys.monitoring.OPTIMIZER_ID
+    yields = 0
+
+    def start(self):
+        import time as _t
+
+        mon = sys.monitoring
+        self._sleep = _t.sleep
+        self._own = mon.get_tool(self.TOOL) is None
+        if self._own:
+            mon.use_tool_id(self.TOOL, "vf-yield")
+        mon.register_callback(self.TOOL, mon.events.LINE, self._on_line)
+        mon.set_events(self.TOOL, mon.events.LINE)
+
+    def _on_line(self, code, line):  # noqa: ARG002
+        fn = code.co_filename
+        if "/bluebonnet/" not in fn or "/verif/" in fn:
+            return sys.monitoring.DISABLE
+        _YieldInjector.yields += 1
+        self._sleep(0)
+        return None
+
+    def stop(self):
+        mon = sys.monitoring
+        mon.set_events(self.TOOL, 0)
+        mon.register_callback(self.TOOL, mon.events.LINE, None)
+        if self._own:
+            mon.free_tool_id(self.TOOL)
+        mon.restart_events()
+
+
+def concurrent_vs_alone(groups, switch_interval=1e-5, timeout=180, yield_injection=True):
     """groups: one list of zero-argument callables per thread. All threads run at once (with a short
     interpreter switch interval, so that Python-level callbacks of root finders and quadratures are
     interleaved often); afterwards every callable is called again alone. Returns
@@ -318,13 +355,18 @@ def concurrent_vs_alone(groups, switch_interval=1e-5, timeout=180):
 
     old = sys.getswitchinterval()
     sys.setswitchinterval(switch_interval)
+    inj = _YieldInjector() if yield_injection else None
     try:
+        if inj:
+            inj.start()
         th = [threading.Thread(target=work, args=(k,), daemon=True) for k in range(len(groups))]
         for t in th:
             t.start()
         for t in th:
             t.join(timeout)
     finally:
+        if inj:
+            inj.stop()
         sys.setswitchinterval(old)
     if any(t.is_alive() for t in th):
         errs.append((-1, -1, "thread still running after the time-out"))
